@@ -2,6 +2,8 @@ from props_util import D
 
 # the sanitizer report of a crashing case costs ~0.17 s when symbolised, ~0.02 s when not;
 # replay a crashing index by hand without this variable to get file:line
+# lengths the thorough tier enumerates completely over 2, 3 and 5 keys (the other modes must know, to count each array once)
+EXH_T = ['exh2=18', 'exh3=12', 'exh5=7']
 ASAN_ENV = {'ASAN_OPTIONS': 'symbolize=0:detect_leaks=0'}
 
 
@@ -48,12 +50,12 @@ def register(PROPS):
                         'length <= 600 and 1016..1032, 2040..2056, 4088..4096; ASan+bounds over all of (b) and over (c) at the quick lengths with all alphabets',
         },
         'drivers': [
-            D('c20_sort', ['mode=exh'], ['mode=exh', 'exh2=18', 'exh3=12', 'exh5=7'], label='short-exhaustive', shards=16),
-            D('c20_sort', ['mode=fam'], label='families-every-length'),
-            D('c20_sort', ['mode=pos', 'alpha=k2day+k5+k67'], ['mode=pos', 'dense=1', '--deadline', '480'], label='positions-special-lengths'),
-            D('c20_sort', ['mode=exh'], label='short-exhaustive-asan', variant='asan', shards=4, env=ASAN_ENV),
-            D('c20_sort', ['mode=fam', 'nhi=1100', 'extra=1'], ['mode=fam', '--deadline', '480'], label='families-asan', variant='asan', env=ASAN_ENV),
-            D('c20_sort', ['mode=pos', 'nmax=1025', 'alpha=k2day+k5+k67'], ['mode=pos', '--deadline', '480'], label='positions-asan', variant='asan', env=ASAN_ENV),
+            D('c20_sort', ['mode=exh'], ['mode=exh'] + EXH_T, label='short-exhaustive', shards=16),
+            D('c20_sort', ['mode=fam'], ['mode=fam'] + EXH_T, label='families-every-length'),
+            D('c20_sort', ['mode=pos', 'alpha=k2day+k5+k67'], ['mode=pos', 'dense=1', '--deadline', '480'] + EXH_T, label='positions-special-lengths'),
+            D('c20_sort', ['mode=exh', 'count=0'], label='short-exhaustive-asan', variant='asan', shards=4, env=ASAN_ENV),
+            D('c20_sort', ['mode=fam', 'count=0', 'nhi=1100', 'extra=1'], ['mode=fam', 'count=0', '--deadline', '480'], label='families-asan', variant='asan', env=ASAN_ENV),
+            D('c20_sort', ['mode=pos', 'count=0', 'nmax=1025', 'alpha=k2day+k5+k67'], ['mode=pos', 'count=0', '--deadline', '480'], label='positions-asan', variant='asan', env=ASAN_ENV),
         ],
         'assumptions': [
             'events are hand-built structs (from = the key, index in oid/dur/sts): echs_event_sort is a pure function of the array and echs_event_lt_p reads only .from; '
